@@ -194,6 +194,19 @@ CHECKS.update(
     }
 )
 
+CHECKS.update(
+    {
+        "C20": (
+            "Hypothesis-generated trees / unit-risk tables / hedge sets / close and roll tables with probe algos; independent recomputation of risks, hedge residuals and positions",
+            "Generated trees with multipliers and unit-risk tables (missing tickers, 1-3 measures, history depth 0-2): a probe recomputes every node's risk and history row on every date; generated "
+            "hedge instrument sets (square / over / under-determined) must zero the hedged measures or satisfy the normal equations; generated close and roll tables are checked against the positions "
+            "recorded after the algos ran.",
+            "Close/roll algos run on every date; a security opened for the first time on or after its close date by a later algo of the same stack is exempt on that one date (the algo cannot see it).",
+            "5/C20",
+        ),
+    }
+)
+
 NOT_YET = {}
 
 ALL = ["C%02d" % i for i in range(1, 21)]
